@@ -516,7 +516,21 @@ def mon_C16(sc, trace, probes, info):
                 started = [j for j, q in enumerate(probes) if q[0] == 'task_start' and q[1] == tn]
                 if started and (tn not in ends or ends[tn][0] > i):
                     out.append(('first %r ended but its activity %r is still running afterwards' % (name, tn), None))
-    # code of an activity after its collect/first ended
+    # the caller left collect()/first() by any route (cancelled, interrupted, closed, failed): once the calling
+    # task itself has ended, none of the activities may run any more
+    for i, p in enumerate(probes):
+        if p[0] in ('collect_start', 'first_start'):
+            tns = p[2] if p[0] == 'collect_start' else p[3]
+            caller = p[-1]
+            if not (isinstance(caller, tuple) and caller[0] == 't'):
+                continue
+            end = [j for j, q in enumerate(probes) if q[0] == 'task_end' and q[1] == caller[1] and j > i]
+            if not end:
+                continue
+            for q in probes[end[0] + 1:]:
+                if (q[0] == 'task_start' and q[1] in tns) or (q[0] == 'log' and q[3] in [('t', tn) for tn in tns]):
+                    out.append(('activity %r of %s %r ran after its caller %r had ended' % (q[1] if q[0] == 'task_start' else q[3], p[0].split('_')[0], p[1], caller), None))
+                    break
     return out
 
 
